@@ -270,8 +270,12 @@ pub fn c10_script(r: &mut Rng, _index: u64, _tier: Tier) -> (CaseCfg, Vec<Step>)
     // one case in four: the broker limits the packet size, so some publishes are refused locally
     // (a refused request is not a client packet and must not postpone the PINGREQ)
     let small_mps = r.chance(1, 4);
+    let tiny_mps = !small_mps && r.chance(1, 8);
     if small_mps {
         props.push(Prop::MaximumPacketSize(24));
+    } else if tiny_mps {
+        // only the smallest packets fit: a PINGREQ (two bytes) always does
+        props.push(Prop::MaximumPacketSize(*r.pick(&[2u32, 3, 4, 8])));
     } else if r.chance(1, 5) {
         // a limit that restricts nothing (its low 16 bits are 0 or 1)
         props.push(Prop::MaximumPacketSize(*r.pick(&[65_536u32, 65_537, 1 << 20, 1 << 24])));
@@ -311,6 +315,13 @@ pub fn c10_script(r: &mut Rng, _index: u64, _tier: Tier) -> (CaseCfg, Vec<Step>)
     if r.chance(1, 6) {
         s.push(Step::Broker(BrokerAct::WakeDelay(*r.pick(&[1_000u64, 1_000_000, 4_000_000, 4_999_999, 5_000_000, 7_000_000]))));
     }
+    // one case in three: timers fire a little late (1 us or 1 ms), as they do on every real
+    // executor; the client's own slack (at least half a second) has to absorb that
+    if r.chance(1, 3) {
+        s.push(Step::Broker(BrokerAct::TimerLatency(*r.pick(&[1u64, 1_000]))));
+    }
+    // one case in four: the application waits in recv() instead of poll()
+    let use_recv = r.chance(1, 4);
     let base = if eff == 0 { 10_000_000 } else { eff.min(100_000_000) };
     // one case in six: the poll that writes the PINGREQ is given up after the first of its two
     // bytes (transport that pends before every write and takes one byte at a time), the
@@ -334,7 +345,7 @@ pub fn c10_script(r: &mut Rng, _index: u64, _tier: Tier) -> (CaseCfg, Vec<Step>)
             7 => 20_000_000,
             _ => 1 + r.below(2 * base as usize + 10) as u64,
         };
-        s.push(Step::Poll { max_wait: wait.max(1), cancel_at: None });
+        s.push(if use_recv { Step::Recv { max_wait: wait.max(1), cancel_at: None } } else { Step::Poll { max_wait: wait.max(1), cancel_at: None } });
         let len = if small_mps && r.chance(2, 3) { 40 } else { 2 };
         match r.below(6) {
             0 => s.push(Step::Publish(PubSpec { topic: "k".into(), payload: PayloadSpec::Fill { len, tag: i as u32, ascii: false }, qos: 0, retain: false, props: vec![], correlate: None, cancel_at: None })),
@@ -345,7 +356,7 @@ pub fn c10_script(r: &mut Rng, _index: u64, _tier: Tier) -> (CaseCfg, Vec<Step>)
             _ => {}
         }
     }
-    s.push(Step::Poll { max_wait: 3 * base + 6_000_000, cancel_at: None });
+    s.push(if use_recv { Step::Recv { max_wait: 3 * base + 6_000_000, cancel_at: None } } else { Step::Poll { max_wait: 3 * base + 6_000_000, cancel_at: None } });
     s.push(Step::Poll { max_wait: 1, cancel_at: None });
     (cfg, s)
 }
